@@ -356,4 +356,7 @@ CHECKS["C16"]["rule"] += " Scale: one old store in ten holds 101-140 further own
 CHECKS["C17"]["rule"] += " Recorded seed accounts vest, one time in three, also or only denominations that sort before and after the vesting denomination."
 CHECKS["C20"]["rule"] += " Scale: one query state in ten holds 101-260 recorded vesting accounts, pools and payload links."
 CHECKS["C03"]["level_note"] = CHECKS["C03"]["level_note"].replace("<= 5 sub-distributors, <= 8 blocks, 2 denominations", "<= 5 sub-distributors (up to ~135 accounts in wide configurations), <= 160 blocks, up to 43 denominations")
+CHECKS["C12"]["rule"] += " One TestC12Modules case in ten starts from a big vesting state: 101-150 owners with a pool each and as many recorded vesting accounts."
+for _pid in ("C06", "C15", "C17", "C19"):
+    CHECKS[_pid]["rule"] += " The queries the oracle reads are asked through the application's gRPC query router (path + marshalled request), as a client asks them."
 
